@@ -234,7 +234,7 @@ def run(ck):
     sdir = ck.path("spec")
     if not os.path.isdir(sdir):
         shutil.copytree(os.path.join(vf.VERIF, "spec"), sdir)
-    nsim, budget = (4000, 1200) if ck.thorough else (500, 60)
+    nsim, budget = (4000, 1200) if ck.thorough else (1500, 60)
 
     def tlc(name, mode, invs, table="", **kw):
         fn = "_c41_%s%s.cfg" % ("x_" if table else "", name)
